@@ -1,6 +1,6 @@
 """C13 — frame index metadata: spacing / direction arithmetic on integer indices (value-level numpy stub) and the
 assignment logic of FrameItem._setup_frame_params_from_data."""
-from vf.harness.common import SHARD_I, SHARD_N
+from vf.harness.common import SHARD_I, SHARD_N, THOROUGH
 from vf.harness.objmodel import reset_global_state, untraced, global_config
 from vf.stubs import npvalues as npv
 
@@ -10,12 +10,18 @@ from dliswriter.logical_record.eflr_types.channel import ChannelItem, ChannelSet
 
 frame_mod.np = npv
 
+try:
+    from crosshair import realize
+except ImportError:
+    def realize(x):
+        return x
+
 INT_DT = ['int8', 'int16', 'int32', 'uint8', 'uint16', 'uint32']
 LO = [-128, -32768, -2147483648, 0, 0, 0]
 HI = [127, 32767, 2147483647, 255, 65535, 4294967295]
 
 
-def spacing_check(dti, n, a, b, c, d, tol=False):
+def spacing_check(dti, n, a, b, c, d, tol=False, exact=False):
     npv.TOLERANCE_ORACLE[0] = tol
     vals = [a, b, c, d][:n]
     for v in vals:
@@ -53,8 +59,33 @@ def spacing_check(dti, n, a, b, c, d, tol=False):
             want = False
     if direction is not want:
         return 3
-    # non-uniform differences: whether the documented near-uniform tolerance applies is a float kernel (outside the
-    # claim; its outcome is arbitrary in the stub), so nothing is asserted about the spacing there
+    # non-uniform differences: the documented tolerance is (1 - d/median)**2 < 0.001 for every difference d.  It is
+    # evaluated exactly (rationals); within a relative 1e-3 of the threshold nothing is asserted (float rounding)
+    if not uniform and exact:
+        s = sorted(diffs)
+        k = len(s)
+        if k % 2:
+            num, den = s[k // 2], 1
+        else:
+            num, den = s[k // 2 - 1] + s[k // 2], 2
+        if num == 0:
+            return 0 if spacing is None else 4
+        anum = num if num >= 0 else -num
+        all_near = True
+        any_far = False
+        for x in diffs:
+            g = num - x * den
+            if g < 0:
+                g = -g
+            # |1 - x/median| against sqrt(0.001) = 0.031622...: clearly below 0.031 / clearly above 0.032
+            if not (1000 * g < 31 * anum):
+                all_near = False
+            if 1000 * g > 32 * anum:
+                any_far = True
+        if any_far and spacing is not None:
+            return 5                       # SPACING announced for differences that are not uniform
+        if all_near and (spacing is None or not (spacing == npv.MedVal(num, den))):
+            return 6                       # near-uniform (within the tolerance): SPACING is the median difference
     return 0
 
 
@@ -66,6 +97,36 @@ def ob_spacing(dti: int, n: int, a: int, b: int, c: int, tol: bool) -> int:
     post: _ == 0
     """
     return spacing_check(dti, n, a, b, c, 0, tol)
+
+
+TOL_N_HI = 4
+
+
+def spacing_tol_check(dti, n, a, b, c, d, tol):
+    npv.EXACT_TOL[0] = True
+    try:
+        return spacing_check(dti, n, a, b, c, d, tol, exact=True)
+    finally:
+        npv.EXACT_TOL[0] = False
+
+
+def ob_spacing_tol(dti: int, n: int, a: int, b: int, c: int, d: int, tol: bool) -> int:
+    """
+    The near-uniform tolerance, decided in exact (linearised) rational arithmetic: 3..4 rows, all values of the dtype.
+    pre: 0 <= dti < 6 and dti % SHARD_N == SHARD_I % 6
+    pre: 3 <= n <= TOL_N_HI
+    post: _ == 0
+    """
+    return spacing_tol_check(dti, n, a, b, c, d, tol)
+
+
+def reach_spacing_tol(dti: int, n: int, a: int, b: int, c: int, d: int, tol: bool) -> int:
+    """
+    pre: 0 <= dti < 6
+    pre: 3 <= n <= 4
+    post: _ != 0
+    """
+    return spacing_tol_check(dti, n, a, b, c, d, tol)
 
 
 def reach_spacing(dti: int, n: int, a: int, b: int, c: int, tol: bool) -> int:
